@@ -210,6 +210,21 @@ func (u *Unit) evalConversion(st *State, e *ast.CallExpr, to types.Type) Term {
 			}
 		}
 	}
+	// slice -> array (Go 1.20): panics when the slice is shorter than the array
+	if at, ok := to.Underlying().(*types.Array); ok {
+		if _, ok := from.Underlying().(*types.Slice); ok {
+			c := u.c
+			goal := c.idxLe(c.idxConst(at.Len()), sLen(a.S))
+			u.emit(st, "safety", u.safetyName("bounds", u.exprText(e)), "slice to array conversion: the slice is at least as long as the array: "+u.exprText(e), e.Pos(), goal)
+			st.assume(goal)
+			blk := u.sliceBlock(st, a)
+			arr := u.c.fresh("arrval", c.sortOf(to))
+			for i := int64(0); i < at.Len() && at.Len() <= 64; i++ {
+				st.assume(eq(fmt.Sprintf("(select %s %s)", arr, c.idxConst(i)), fmt.Sprintf("(select %s %s)", blk, c.idxAdd(sOff(a.S), c.idxConst(i)))))
+			}
+			return Term{S: arr, T: to}
+		}
+	}
 	return u.abstractExpr(st, e, "conversion "+from.String()+" -> "+to.String())
 }
 
